@@ -3,7 +3,7 @@ from sim.script_scenario import ScriptScenario
 
 PROP = "C10"
 LEVEL = "exploration"
-RUNS = {"quick": 3000, "thorough": 50000}
+RUNS = {"quick": 3000, "thorough": 300000}
 BUDGET_S = {"quick": 50, "thorough": 840}
 CHUNK = 20
 RULE = ("One evaluation = one seeded history in the real-bash profile: the simulated Slurm/SGE/LSF parses the received script with its own directive reader and RUNS it with real bash from a foreign cwd, stdout/stderr wired as the directives say. Differential: project files and exit status after the scheduler-run script == after `cd <target wd> && bash -e` on the bare spec in a pristine copy, for generated specs (multi-line, with/without trailing/leading newline, quotes, $, heredocs, a failing command in the middle) and project directory names with spaces, quotes, ; & $ ( ) * # and non-ASCII, and template targets with their own working directory. Directive multiset == options resolved by an independent precedence chain (backend default < workflow default < template < target; None omitted; unknown dropped with a warning; SGE memory per core). `gwf logs` == the job's real output per log mode. A run deletes only logs of targets no longer in the workflow, none with clean_logs off, none on dry-run. Spec/option/dirname dimensions are sampled inputs (the weakest fit to this technique family among the claimed properties).")
